@@ -13,7 +13,7 @@ const NS_PER_S: f32 = 1_000_000_000.0;
 /// 2^63 as f32 (exactly representable)
 const TWO63: f32 = 9223372036854775808.0;
 
-//@ob fn="<Quantity as From<Time>>::from" at=src/dimensions.rs:150 clause="for every i64 ns: unit is mm^0 s^1 and value == (ns as f32) / 1e9 exactly (one cast, one f32 division); the value is finite, never NaN, and has the sign of ns (0 -> +0)"
+//@ob fn="<Quantity as From<Time>>::from" at=src/dimensions.rs:150 prop=C18,C14 clause="for every i64 ns: unit is mm^0 s^1 and value == (ns as f32) / 1e9 exactly (one cast, one f32 division); the value is finite, never NaN, and has the sign of ns (0 -> +0)"
 #[kani::proof]
 #[kani::solver(cvc5)]
 fn c18_quantity_from_time() {
